@@ -25,7 +25,7 @@ CHECKS = {
  'C19': ('setter sequences with symbolic instants on files, directories and filesystem roots (MemoryFS, PhysicalFS@OSM, altroot/overlay over them): the set field round-trips, other fields/length/type/bytes unchanged, append preserves creation time', '§5 C19'),
  'C20': ('fault switch on every dyn FileSystem dispatch to an underlying filesystem: for each operation (adapter primitives, composites incl. copy/move, walk_dir, read_to_string; also after removals that leave overlay markers) every call index k fails once; Ok implies full effect and right answer, never a panic, lower layers untouched', '§5 C20'),
 }
-NOTE = 'trusted: rustc MIR dump, mirsym interpreter + std contract models (validated by native differential selftest in every run), contract oracle harness/core.py, z3. Bounds in evidence.coverage.bounds; nothing outside them is claimed.'
+NOTE = 'thorough tier: the same families with wider plans, explored in seeded random order within a time budget per check (VERIF_THOROUGH_BUDGET_S, default 420 s); evidence reports planned vs run cases. trusted: rustc MIR dump, mirsym interpreter + std contract models (validated by native differential selftest in every run), contract oracle harness/core.py, z3. Bounds in evidence.coverage.bounds; nothing outside them is claimed.'
 NA = {
 }
 props = [json.loads(l) for l in open(os.path.join(V, 'properties.jsonl'))]
